@@ -41,6 +41,7 @@ class ItemSpec:
         self.subs = []        # (frm, to, which, tline)
         self.indent = ''
         self.import_from = None
+        self.rename = None
 
 
 class GenLine:
@@ -70,9 +71,15 @@ def parse_template(text):
         if d and d.group(1) == 'import':
             u, _, rest = d.group(2).partition('::')
             crate, _, path = rest.partition('::')
+            rename = None
+            mo_as = re.search(r'\s+as\s+([A-Za-z_][A-Za-z0-9_]*)\s*$', path)
+            if mo_as:
+                rename = mo_as.group(1)
+                path = path[:mo_as.start()]
             spec = ItemSpec(crate.strip(), path.strip(), i + 1)
             spec.indent = re.match(r'\s*', ln).group(0)
             spec.import_from = u.strip()
+            spec.rename = rename
             out.append(('import', spec))
             i += 1
             continue
@@ -483,6 +490,11 @@ def build_import(src, spec, log, read_template):
     # mutable bindings in parameter position are irrelevant for a declaration
     header = re.sub(r'\(\s*mut\s+([a-z_][A-Za-z0-9_]*)\s*:', r'(\1:', header)
     header = re.sub(r',\s*mut\s+([a-z_][A-Za-z0-9_]*)\s*:', r', \1:', header)
+    for frm, to, which, tline in found.subs:
+        if frm in header:
+            header = header.replace(frm, to)
+    if spec.rename:
+        header = re.sub(r'(?<![A-Za-z0-9_])fn\s+%s(?![A-Za-z0-9_])' % re.escape(it.name), 'fn ' + spec.rename, header, count=1)
     lines = ['#[verifier::external_body]'] + header.rstrip().split('\n')
     for b in specs:
         lines += b[2]
